@@ -31,6 +31,21 @@ CHECKS = {
         note="Trusted: atomicity of gate-to-gate segments, goroutine identity via runtime.Stack, 1.5 ms grace for "
              "'blocked' claims, Go race detector on un-hooked runs only.",
         ref="DESIGN.md §6 C12"),
+    "C13": dict(
+        technique="TLC exhaustive fault x schedule enumeration on the process model with an error slot; TLC-simulated "
+                  "(fault, schedule) pairs forced on the real code with real I/O failures at the hooks; residue "
+                  "invariants on the implementation-shaped model; random single-fault runs validated by TLC",
+        text="MorassConc.tla carries the sorter's single error slot and a failure alternative for every TempFile, "
+             "Encode and Sync of every writer; TLC checks NoSilentLoss (if all calls reported success, Finalise found "
+             "every value) over every fault and interleaving in both modes and refutes the as-found setErr(nil) "
+             "overwrite. MorassImpl.tla tracks run files on disk and the directory; TLC checks the AutoClear / "
+             "AutoClean / CleanUp residue invariants over all histories and refutes the as-found in-memory path. "
+             "Simulated (fault, schedule) pairs are executed on the real code by closing the run file or hiding the "
+             "directory at the corresponding hook; model histories with residue logged and 800 random single-fault "
+             "runs (also Seek / Decode / Pull read failures) are validated by MorassTrace.tla.",
+        note="Trusted: one failing operation per run; failures induced via closed descriptors / hidden directory / "
+             "corrupted run; directory listing after each call; CleanUp only at quiescence.",
+        ref="DESIGN.md §6 C13"),
 }
 
 NOT_YET = {}
